@@ -48,7 +48,38 @@ class Register:
             )
         self._alias_from = alias_from
         self._alias_slice = alias_slice
+        if size is not None:
+            if isinstance(size, AnnotatedValue):
+                if size.kind not in (ParamType.INT, ParamType.NONE):
+                    raise JaqalError(
+                        f"Cannot size register {name} with {size.name} of non-integer kind {size.kind}."
+                    )
+            elif isinstance(size, bool) or not isinstance(size, Integral) or size < 1:
+                raise JaqalError(f"Invalid size {size} for register {name}.")
+        if alias_from is not None:
+            if not isinstance(alias_from, (Register, AnnotatedValue)):
+                raise JaqalError(f"Cannot map {name} to {alias_from}: not a register.")
+            if isinstance(alias_from, AnnotatedValue) and alias_from.kind not in (
+                ParamType.REGISTER,
+                ParamType.NONE,
+            ):
+                raise JaqalError(
+                    f"Cannot map {name} to {alias_from.name} of non-register kind {alias_from.kind}."
+                )
         if alias_slice is not None:
+            for bound in (alias_slice.start, alias_slice.stop, alias_slice.step):
+                if bound is None or isinstance(bound, AnnotatedValue):
+                    continue
+                if isinstance(bound, bool) or not isinstance(bound, Integral):
+                    raise JaqalError(
+                        f"Bound {bound} of map {name} is not an integer."
+                    )
+            if (
+                alias_slice.start is not None
+                and not isinstance(alias_slice.start, AnnotatedValue)
+                and alias_slice.start < 0
+            ):
+                raise JaqalError("Index out of range.")
             if (
                 isinstance(alias_slice.start, AnnotatedValue)
                 or isinstance(alias_slice.stop, AnnotatedValue)
